@@ -146,14 +146,16 @@ def transitions_for_event(draw, states, params, derived, n_tr, kinds="TBD", inte
         ks = [k for k in kinds if not (k == "T" and len(states) < 2)]
         kind = draw(st.sampled_from(ks))
         mg = draw(magnitude(params, derived, symbolic=symbolic, integer=integer_mag, hi=mag_hi))
+        # when the model declares its states as ODEVariable objects, either end may be named by the object instead of the ID
+        ref = {"o": draw(st.booleans()), "d": draw(st.booleans())}
         if kind == "T":
             o, d = draw(st.lists(st.sampled_from(states), min_size=2, max_size=2, unique=True))
-            trs.append({"kind": "T", "o": o, "d": d, "mag": mg})
+            trs.append({"kind": "T", "o": o, "d": d, "mag": mg, "obj_ref": ref})
         elif kind == "B":
             trs.append({"kind": "B", "o": None, "d": draw(st.sampled_from(states)), "mag": mg,
-                        "birth_by": draw(st.sampled_from(["origin", "destination"]))})
+                        "birth_by": draw(st.sampled_from(["origin", "destination"])), "obj_ref": ref})
         else:
-            trs.append({"kind": "D", "o": draw(st.sampled_from(states)), "d": None, "mag": mg})
+            trs.append({"kind": "D", "o": draw(st.sampled_from(states)), "d": None, "mag": mg, "obj_ref": ref})
     return trs
 
 
@@ -205,7 +207,7 @@ def general_model(draw, max_states=5, max_params=5, max_events=5, min_events=0, 
             if draw(st.booleans()):
                 e = ir.neg(e)
             odes.append({"state": draw(st.sampled_from(states)), "expr": e})
-    return {"state_decl": decl, "state_style": draw(st.sampled_from(["list", "list", "space", "comma", "tuples"])),
+    return {"state_decl": decl, "state_style": draw(st.sampled_from(["list", "list", "space", "comma", "tuples", "odevar"])),
             "params": params, "param_style": draw(st.sampled_from(["list", "list", "space", "comma"])),
             "derived": derived, "events": events, "odes": odes}
 
@@ -304,7 +306,7 @@ def event_model(draw, max_states=5, max_events=5, kinds="TBD", limits=False, tra
         rate, kind = draw(rate_expr(states, params if symbolic_rates else [], (), bounded=bounded,
                                     allow_time=False, dep_states=dep))
         events.append({"rate": rate, "rate_kind": kind, "trans": trs})
-    return {"state_decl": decl, "state_style": draw(st.sampled_from(["list", "list", "space", "comma", "tuples"]))
+    return {"state_decl": decl, "state_style": draw(st.sampled_from(["list", "list", "space", "comma", "tuples", "odevar"]))
             if not limits else "list",
             "params": params, "param_style": "list", "derived": [], "events": events, "odes": []}
 
@@ -440,7 +442,7 @@ def ode_model(draw, max_states=4, allow_time=True, families=("chain", "epidemic"
                 dst = draw(st.sampled_from(states))
                 D_(dst, ir.mul(ir.P(p), ir.S(dst)))
     decl = [{"name": s, "lims": None} for s in states]
-    return {"state_decl": decl, "state_style": draw(st.sampled_from(["list", "space", "comma"])),
+    return {"state_decl": decl, "state_style": draw(st.sampled_from(["list", "space", "comma", "odevar"])),
             "params": params, "param_style": draw(st.sampled_from(["list", "comma"])),
             "derived": [], "events": events, "odes": [], "family": fam}
 
